@@ -240,6 +240,10 @@ func (h *dbHarness) execArmFault(op *DBOp) {
 	f := &simfs.Fault{Name: "armed-" + op.Mode, Errno: "EIO", Skip: op.N, Count: 1, Kinds: simfs.KindMask(t.kinds...)}
 	if len(t.classes) > 0 {
 		f.Classes = simfs.ClassMask(t.classes...)
+		// the store's own files: reads of a table that is about to be ingested
+		// (ext/...) would otherwise use up the count before the operation
+		// touches the LSM
+		f.PathPrefix = "/db/"
 	}
 	h.dynFaults = append(h.dynFaults, f)
 	h.armFaults()
